@@ -160,6 +160,9 @@ def main(argv):
         data = json.load(open(replay_path))
         ctx = vlib.Ctx(prop, tier, seed)
         ctx.driver_ok = prep["driver_ok"]
+        rp_ = ((data.get("payload") or {}).get("replay") or {}) if isinstance(data, dict) else {}
+        if rp_.get("run_seed") is not None and rp_.get("run_index") is not None:
+            ctx.replay_run = (rp_["run_index"], rp_["run_seed"])       # stream checks re-run exactly the recorded scenario
         out = mod.replay(ctx, data)
         W("REPLAY %s: %s\n" % (replay_path, out))
         for w in ctx.witnesses:
